@@ -1024,21 +1024,24 @@ func fullTagAppend(bi, b *blockPointer, offset int) {
 		return
 	}
 
-	tagFamilyMap := make(map[string]*columnFamily)
+	// Index by position, not by pointer: appending a new family or column below may
+	// reallocate the slices and would leave pointers to the old elements dangling.
+	tagFamilyIndex := make(map[string]int, len(bi.tagFamilies))
 	for i := range bi.tagFamilies {
-		tagFamilyMap[bi.tagFamilies[i].name] = &bi.tagFamilies[i]
+		tagFamilyIndex[bi.tagFamilies[i].name] = i
 	}
 
 	for _, tf := range b.tagFamilies {
-		if existingTagFamily, exists := tagFamilyMap[tf.name]; exists {
-			columnMap := make(map[string]*column)
-			for i := range existingTagFamily.columns {
-				columnMap[existingTagFamily.columns[i].name] = &existingTagFamily.columns[i]
+		if tfIdx, exists := tagFamilyIndex[tf.name]; exists {
+			columnIndex := make(map[string]int, len(bi.tagFamilies[tfIdx].columns))
+			for i := range bi.tagFamilies[tfIdx].columns {
+				columnIndex[bi.tagFamilies[tfIdx].columns[i].name] = i
 			}
 
 			for _, c := range tf.columns {
-				if existingColumn, exists := columnMap[c.name]; exists {
+				if cIdx, exists := columnIndex[c.name]; exists {
 					assertIdxAndOffset(c.name, len(c.values), b.idx, offset)
+					existingColumn := &bi.tagFamilies[tfIdx].columns[cIdx]
 					existingColumn.values = append(existingColumn.values, c.values[b.idx:offset]...)
 				} else {
 					assertIdxAndOffset(c.name, len(c.values), b.idx, offset)
@@ -1047,16 +1050,14 @@ func fullTagAppend(bi, b *blockPointer, offset int) {
 						col.values = append(col.values, nil)
 					}
 					col.values = append(col.values, c.values[b.idx:offset]...)
-					existingTagFamily.columns = append(existingTagFamily.columns, col)
+					bi.tagFamilies[tfIdx].columns = append(bi.tagFamilies[tfIdx].columns, col)
 				}
 			}
 		} else {
 			appendTagFamilies(tf)
 		}
 	}
-	for k := range tagFamilyMap {
-		delete(tagFamilyMap, k)
-	}
+	tagFamilyMap := make(map[string]*columnFamily, len(b.tagFamilies))
 	for i := range b.tagFamilies {
 		tagFamilyMap[b.tagFamilies[i].name] = &b.tagFamilies[i]
 	}
